@@ -113,8 +113,6 @@ HangCombo(o) == o.stop /\ o.sync /\ ~PS(o) /\ ~o.pid
 -----------------------------------------------------------------------------
 \* Error locations (errloc_linux.go).  LocOf is by what the step IS, not by the constant
 \* the code happens to pass; where the code passes another constant it is listed in CodeLoc.
-LocNum == [clone |-> 1, close_write |-> 2, unshare_user_read |-> 3, getpid |-> 4, keep_capability |-> 5,
-           setgroups |-> 6, setgid |-> 7, setuid |-> 8, dup3 |-> 9, fcntl |-> 10, setsid |-> 11, ioctl |-> 12]
 LocOf(n) ==
   CASE n = "clone" -> "clone"
     [] n = "close_p0" -> "close_write"
@@ -151,6 +149,17 @@ LocOf(n) ==
 CodeLoc(n) == IF n \in {"dropB_secbits", "dropC_secbits"} THEN "keep_capability" ELSE LocOf(n)
 Indexed(n) == n \in {"mounts", "mounts_mkdir", "rlimits"}
 Fallible(n) == n \notin {"hostname", "domainname", "ucgA", "ucgB"}   \* results ignored by the code
+
+\* C07 interpretation: does Start itself return the error?  (early-return modes report only what fails before the
+\* child's sync word; without a callback they report nothing but a failed clone)
+PosOf(n) == CHOOSE i \in 1..Len(StepOrder) : StepOrder[i] = (IF n = "mounts_mkdir" THEN "mounts" ELSE n)
+SyncWriteOf(o) == IF PS(o) THEN "syncA_write" ELSE "syncB_write"
+Reported(o, f) ==
+  \/ f.step = "clone"
+  \/ ~Early(o)
+  \/ o.sync /\ f.step = "idmap"
+  \/ o.sync /\ f.step \notin {"idmap"} /\ PosOf(f.step) <= PosOf(SyncWriteOf(o))
+
 
 -----------------------------------------------------------------------------
 \* Abstract kernel-visible state of the child.
